@@ -11,7 +11,16 @@ nothing renders the same under any page context).
 spec -> code: every enumerated page is rendered for real; tokens compared.
 code -> spec: random programs with name collisions, plus 2-run pairs (same program under two
               page contexts that differ everywhere) and Component.render(context=...) in
-              isolated mode, validated by TLC.  Around every component tag and around the
+              isolated mode, validated by TLC.  Assignment tags (`{% firstof e "dflt" as v %}`: bind a
+              variable for the rest of the enclosing body instead of opening a block) placed directly
+              in a component tag's body before / between / after its fills and inside the for / with
+              wrappers of a fill - fresh names and names colliding with page / data / with bindings;
+              also enumerated by TLC (MC_Djc AsgTokens).  In isolated mode an assignment tag that
+              re-binds an otherwise bound name is the same unspecified zone as `{% with %}` there; a
+              body whose fills all vanish (it then is default slot content) is a zone when it holds an
+              assignment tag; assignment tags are not generated elsewhere (inside `{% if %}` they would
+              outlive the block), never bind a loop variable, and only read scalar variables.
+              Around every component tag and around the
               whole render the caller's Context is fingerprinted before/after
               (CallerContextRestored).
 """
@@ -105,6 +114,16 @@ def body(chk: Check, *, mc_nodes: int, n_random: int, n_pairs: int, deep: int) -
     states += djc.oracle.last_states
     sta = djc.compare_batch(chk, pa, expa, djc.real_variant(pa, probes=True), "rand-alias-collide", extra_check=ctx_check)
     chk.add("alias_collision_programs", len(pa) - sta["zone"])
+    # assignment tags ({% firstof e "dflt" as v %}) directly in the body of a component tag, before / between / after
+    # its fills and inside the for / with wrappers of a fill: a variable bound between the component tag and the fill
+    # without a block of its own, fresh or colliding with page / data / with names
+    gs = P.Gen(random.Random(chk.seed * 1000003 + 34), depth=deep, width=3, collide=True, assigns=0.7)
+    ps = [gs.program(5 * 10 ** 6 + i, P.MODES[i % 2]) for i in range(n_random // 2)]
+    exps = djc.oracle(ps)
+    states += djc.oracle.last_states
+    sts = djc.compare_batch(chk, ps, exps, djc.real_variant(ps, probes=True), "rand-assign", extra_check=ctx_check)
+    chk.add("assignment_tag_programs", sum(1 for p in ps if not exps[p["id"]]["zone"] and '"asg"' in json.dumps(p["page"]) + json.dumps([c["tpl"] for c in p["comps"]])))
+    chk.add("traces_validated_against_impl", len(ps) - sts["zone"])
     chk.add("traces_validated_against_impl", len(pa) - sta["zone"])
     chk.add("traces_validated_against_impl", len(progs) - st["zone"])
     chk.sample({"random_program": djc.brief(progs[1]), "expected": exp[progs[1]["id"]]["out"]}, limit=3)
@@ -153,11 +172,12 @@ def run(tier: str) -> int:
         body(chk, mc_nodes=3, n_random=8000, n_pairs=2000, deep=4)
     chk.cov["exhaustive"] = True
     chk.cov["rule"] = ("TLC enumerates every page with <= N nodes over the 'scope' alphabet (colliding names between page "
-                       "context, loop variables, with-bindings, kwargs, component data; `only`), x2 modes, each replayed with "
+                       "context, loop variables, with-bindings, assignment tags between tag and fill, kwargs, component data; `only`), x2 modes, each replayed with "
                        "context probes; random colliding programs; isolated 2-run pairs under two different page contexts; "
                        "Component.render(context=) in isolated mode. Non-trivial = renders >= 1 component instance.")
     chk.assumptions += ["isolated mode: a {% with %} between the component tag and the fill that re-binds an otherwise bound "
-                        "name is an unspecified zone (flagged by the specification, skipped)",
+                        "name is an unspecified zone (flagged by the specification, skipped); the same holds for an assignment tag "
+                        "(`{% firstof .. as v %}`) there",
                         "the caller's Context is observed through public items of every layer + layer counts"]
     return chk.finish()
 
@@ -169,6 +189,29 @@ def selftest(tier: str) -> int:
     boot.setup()
     allp = djc.standard_probes()
     probes = [(n, allp[n]) for n in ['only/isolated-does-not-isolate', 'slot-data-alias-lost']]
+
+    def fill_capture_skips_fill_layer():
+        # variables written INTO the layer the library pushes around a component tag's body (assignment tags:
+        # `{% firstof .. as v %}`) are not captured for the fills; {% with %} / {% for %} layers above it still are
+        from contextlib import contextmanager
+        import django_components.slots as dslots
+
+        @contextmanager
+        def cm():
+            orig = dslots.get_last_index
+
+            def g(lst, key):
+                i = orig(lst, key)
+                if i is not None and key({dslots.FILL_GEN_CONTEXT_KEY: 0}) and not key({}):
+                    return i + 1
+                return i
+            dslots.get_last_index = g
+            try:
+                yield
+            finally:
+                dslots.get_last_index = orig
+        return cm()
+    probes.append(("fill-capture-skips-assignment-tag-layer", fill_capture_skips_fill_layer))
     return run_probes(PID, probes, lambda chk: body(chk, mc_nodes=2, n_random=300, n_pairs=60, deep=3))
 
 
